@@ -354,7 +354,7 @@ func C10OneShot(sym string) {
 
 func c10References(w *core.W) map[string]string {
 	refs := map[string]string{}
-	self := filepath.Join(verifDirProps(), ".build", "mc-inst")
+	self := filepath.Join(verifDirProps(), core.BuildDirName(), "mc-inst")
 	for _, s := range c10Alphabet() {
 		out, err := exec.Command(self, "c10oneshot", s.String()).Output()
 		if err != nil {
